@@ -25,3 +25,612 @@ Proof.
   assert (Il : In l (range_list 56320 1024)) by (apply in_range_list; lia).
   specialize (A l Il). unfold pair_ok in A. apply Z.eqb_eq in A. exact A.
 Qed.
+
+(* ================================================================================================
+   C09_decode: the index-based decoder of parse.py (Model/Parse.v) equals the RFC decoder (Spec/StringLit.v)
+   Part 1: the index arithmetic, restated on the suffix that starts at the index. *)
+From Coq Require Import ZifyBool.
+
+Lemma zlen_app {A} (a b : list A) : zlen (a ++ b) = zlen a + zlen b.
+Proof. unfold zlen. rewrite app_length. lia. Qed.
+Lemma zlen_cons {A} (x : A) l : zlen (x :: l) = 1 + zlen l.
+Proof. unfold zlen. cbn [length]. lia. Qed.
+Lemma zlen_nonneg {A} (l : list A) : 0 <= zlen l. Proof. unfold zlen. lia. Qed.
+
+Lemma znth_aux_app {A} (pre s : list A) : forall k, 0 <= k -> znth_aux (pre ++ s) (zlen pre + k) = znth_aux s k.
+Proof.
+  induction pre as [|x pre IH]; intros k Hk; cbn [app].
+  - unfold zlen. cbn [length]. replace (Z.of_nat 0 + k) with k by lia. reflexivity.
+  - cbn [znth_aux]. rewrite zlen_cons. pose proof (zlen_nonneg pre).
+    assert (E : (1 + zlen pre + k =? 0) = false) by lia. rewrite E.
+    replace (1 + zlen pre + k - 1) with (zlen pre + k) by lia. apply IH. exact Hk.
+Qed.
+Lemma znth_app {A} (pre s : list A) k : 0 <= k -> znth (pre ++ s) (zlen pre + k) = znth s k.
+Proof.
+  intros Hk. unfold znth. pose proof (zlen_nonneg pre).
+  assert (E1 : (zlen pre + k <? 0) = false) by lia. assert (E2 : (k <? 0) = false) by lia.
+  rewrite E1, E2. apply znth_aux_app. exact Hk.
+Qed.
+Lemma znth_app0 {A} (pre s : list A) : znth (pre ++ s) (zlen pre) = znth s 0.
+Proof. rewrite <- (znth_app pre s 0) by lia. f_equal. lia. Qed.
+
+Definition hex4l (s : str) : option Z :=
+  match s with
+  | a :: b :: c :: d :: _ =>
+      match hex_val a, hex_val b, hex_val c, hex_val d with
+      | Some a', Some b', Some c', Some d' => Some (((a' * 16 + b') * 16 + c') * 16 + d')
+      | _, _, _, _ => None
+      end
+  | _ => None
+  end.
+
+Lemma parse_hex4_app pre s : parse_hex4 (pre ++ s) (zlen pre) = hex4l s.
+Proof.
+  unfold parse_hex4. rewrite znth_app0, !znth_app by lia.
+  destruct s as [|a [|b [|c [|d r]]]]; reflexivity.
+Qed.
+
+(* the list view of _decode_hex_char: [rest] is what follows the 'u', [base] the index of the 'u' *)
+Definition dhc (rest : str) (base : Z) : dres :=
+  if zlen rest <=? 3 then DSyntax else
+  match hex4l rest with
+  | None => DSyntax
+  | Some cp =>
+    if is_low_surrogate cp then DSyntax
+    else if is_high_surrogate cp then
+      if (9 <? zlen rest) && ceq_z (znth rest 4) 92 && ceq_z (znth rest 5) 117 then
+        match hex4l (skipn 6 rest) with
+        | None => DSyntax
+        | Some low => if is_low_surrogate low
+                      then DOk (65536 + (Z.lor (Z.shiftl (Z.land cp 1023) 10) (Z.land low 1023))) (base + 10)
+                      else DSyntax
+        end
+      else DSyntax
+    else DOk cp (base + 4)
+  end.
+
+Lemma skipn_zlen {A} n (l : list A) : (n <= length l)%nat -> zlen (firstn n l) = Z.of_nat n.
+Proof. intros H. unfold zlen. rewrite firstn_length. lia. Qed.
+
+Lemma decode_hex_char_app pre u rest :
+  decode_hex_char (pre ++ u :: rest) (zlen pre) = dhc rest (zlen pre).
+Proof.
+  unfold decode_hex_char, dhc. rewrite zlen_app, zlen_cons.
+  pose proof (zlen_nonneg pre). pose proof (zlen_nonneg rest).
+  destruct (zlen rest <=? 3) eqn:E3.
+  - assert (E : (zlen pre + (1 + zlen rest) <=? zlen pre + 4) = true) by lia. rewrite E. reflexivity.
+  - assert (E : (zlen pre + (1 + zlen rest) <=? zlen pre + 4) = false) by lia. rewrite E.
+    assert (Hpre : zlen pre + 1 = zlen (pre ++ [u])) by (rewrite zlen_app; reflexivity).
+    replace (pre ++ u :: rest) with ((pre ++ [u]) ++ rest) by (rewrite <- app_assoc; reflexivity).
+    rewrite Hpre, parse_hex4_app.
+    destruct (hex4l rest) as [cp|]; [|reflexivity].
+    destruct (is_low_surrogate cp); [reflexivity|].
+    destruct (is_high_surrogate cp); [|f_equal; lia].
+    rewrite !znth_app by lia.
+    assert (E9 : (zlen (pre ++ [u]) + 9 <? zlen pre + (1 + zlen rest)) = (9 <? zlen rest)) by (rewrite <- Hpre; lia).
+    rewrite E9. destruct (9 <? zlen rest) eqn:E10; [|reflexivity]. cbn [andb].
+    destruct (ceq_z (znth rest 4) 92 && ceq_z (znth rest 5) 117); [|reflexivity].
+    (* the low surrogate digits start 6 characters into rest *)
+    assert (Hlen : (6 <= length rest)%nat) by (unfold zlen in E10; lia).
+    assert (Hsplit : (pre ++ [u]) ++ rest = ((pre ++ [u]) ++ firstn 6 rest) ++ skipn 6 rest)
+      by (rewrite <- (firstn_skipn 6 rest) at 1; rewrite app_assoc; reflexivity).
+    assert (Hidx : zlen (pre ++ [u]) + 6 = zlen ((pre ++ [u]) ++ firstn 6 rest))
+      by (rewrite (zlen_app (pre ++ [u])), skipn_zlen by exact Hlen; reflexivity).
+    rewrite Hsplit, Hidx, parse_hex4_app.
+    destruct (hex4l (skipn 6 rest)) as [low|]; [|reflexivity].
+    destruct (is_low_surrogate low); [|reflexivity]. f_equal. rewrite <- Hpre. lia.
+Qed.
+
+(* the list view of _decode_escape_sequence *)
+Definition de_list (ch : N) (rest : str) (base : Z) : dres :=
+  if N.eqb ch 34 then DOk 34 base
+  else if N.eqb ch 92 then DOk 92 base
+  else if N.eqb ch 47 then DOk 47 base
+  else if N.eqb ch 98 then DOk 8 base
+  else if N.eqb ch 102 then DOk 12 base
+  else if N.eqb ch 110 then DOk 10 base
+  else if N.eqb ch 114 then DOk 13 base
+  else if N.eqb ch 116 then DOk 9 base
+  else if N.eqb ch 117 then dhc rest base
+  else DSyntax.
+
+Lemma decode_escape_app pre ch rest : decode_escape (pre ++ ch :: rest) (zlen pre) = de_list ch rest (zlen pre).
+Proof.
+  unfold decode_escape, de_list. rewrite znth_app0.
+  change (znth (ch :: rest) 0) with (Some ch). cbv beta iota.
+  destruct (N.eqb ch 34); [reflexivity|]. destruct (N.eqb ch 92); [reflexivity|]. destruct (N.eqb ch 47); [reflexivity|].
+  destruct (N.eqb ch 98); [reflexivity|]. destruct (N.eqb ch 102); [reflexivity|]. destruct (N.eqb ch 110); [reflexivity|].
+  destruct (N.eqb ch 114); [reflexivity|]. destruct (N.eqb ch 116); [reflexivity|].
+  destruct (N.eqb ch 117); [apply decode_hex_char_app | reflexivity].
+Qed.
+Lemma decode_escape_end pre : decode_escape pre (zlen pre) = DIndexError.
+Proof.
+  unfold decode_escape. rewrite <- (app_nil_r pre) at 1. rewrite znth_app0. reflexivity.
+Qed.
+
+(* Part 2: the while loop of _unescape_string as a recursion on the remaining characters. *)
+Definition shift (b : Z) (d : dres) : dres := match d with DOk cp k => DOk cp (b + k) | x => x end.
+
+Lemma dhc_shift rest base : dhc rest base = shift base (dhc rest 0).
+Proof.
+  unfold dhc. destruct (zlen rest <=? 3); [reflexivity|]. destruct (hex4l rest) as [cp|]; [|reflexivity].
+  destruct (is_low_surrogate cp); [reflexivity|]. destruct (is_high_surrogate cp); [|reflexivity].
+  destruct ((9 <? zlen rest) && ceq_z (znth rest 4) 92 && ceq_z (znth rest 5) 117); [|reflexivity].
+  destruct (hex4l (skipn 6 rest)) as [low|]; [|reflexivity]. destruct (is_low_surrogate low); reflexivity.
+Qed.
+Lemma de_list_shift e rest base : de_list e rest base = shift base (de_list e rest 0).
+Proof.
+  unfold de_list.
+  destruct (N.eqb e 34); [cbn; f_equal; lia|]. destruct (N.eqb e 92); [cbn; f_equal; lia|]. destruct (N.eqb e 47); [cbn; f_equal; lia|].
+  destruct (N.eqb e 98); [cbn; f_equal; lia|]. destruct (N.eqb e 102); [cbn; f_equal; lia|]. destruct (N.eqb e 110); [cbn; f_equal; lia|].
+  destruct (N.eqb e 114); [cbn; f_equal; lia|]. destruct (N.eqb e 116); [cbn; f_equal; lia|].
+  destruct (N.eqb e 117); [apply dhc_shift | reflexivity].
+Qed.
+
+Lemma dhc_consumed rest cp k : dhc rest 0 = DOk cp k -> 0 <= k <= zlen rest.
+Proof.
+  unfold dhc. pose proof (zlen_nonneg rest). destruct (zlen rest <=? 3) eqn:E3; [discriminate|].
+  destruct (hex4l rest) as [c|]; [|discriminate]. destruct (is_low_surrogate c); [discriminate|].
+  destruct (is_high_surrogate c).
+  - destruct (9 <? zlen rest) eqn:E9; cbn [andb]; [|discriminate].
+    destruct (ceq_z (znth rest 4) 92 && ceq_z (znth rest 5) 117); [|discriminate].
+    destruct (hex4l (skipn 6 rest)) as [low|]; [|discriminate]. destruct (is_low_surrogate low); [|discriminate].
+    intros Hx. inversion Hx. lia.
+  - intros Hx. inversion Hx. lia.
+Qed.
+Lemma de_list_consumed e rest cp k : de_list e rest 0 = DOk cp k -> 0 <= k <= zlen rest.
+Proof.
+  unfold de_list. pose proof (zlen_nonneg rest).
+  destruct (N.eqb e 34); [intros H0; inversion H0; lia|]. destruct (N.eqb e 92); [intros H0; inversion H0; lia|].
+  destruct (N.eqb e 47); [intros H0; inversion H0; lia|]. destruct (N.eqb e 98); [intros H0; inversion H0; lia|].
+  destruct (N.eqb e 102); [intros H0; inversion H0; lia|]. destruct (N.eqb e 110); [intros H0; inversion H0; lia|].
+  destruct (N.eqb e 114); [intros H0; inversion H0; lia|]. destruct (N.eqb e 116); [intros H0; inversion H0; lia|].
+  destruct (N.eqb e 117); [apply dhc_consumed | discriminate].
+Qed.
+
+Fixpoint ul (fuel : nat) (s : str) (acc : list N) : option (option str) :=
+  match fuel with
+  | O => None
+  | S f =>
+    match s with
+    | [] => Some (Some (rev acc))
+    | ch :: r =>
+        if N.eqb ch 92 then
+          match r with
+          | [] => None
+          | e :: r' =>
+              match de_list e r' 0 with
+              | DOk cp k => ul f (skipn (Z.to_nat k) r') (Z.to_N cp :: acc)
+              | DSyntax => Some None
+              | DIndexError => None
+              end
+          end
+        else if (ch <=? 31)%N then Some None
+        else ul f r (ch :: acc)
+    end
+  end.
+
+Lemma unescape_loop_list : forall fuel pre s acc, unescape_loop fuel (pre ++ s) (zlen pre) acc = ul fuel s acc.
+Proof.
+  induction fuel as [|f IH]; intros pre s acc; [reflexivity|]. cbn [unescape_loop ul].
+  pose proof (zlen_nonneg pre). rewrite zlen_app.
+  destruct s as [|ch r].
+  - assert (E : (zlen pre + zlen (@nil N) <=? zlen pre) = true) by (unfold zlen at 2; cbn [length]; lia). rewrite E. reflexivity.
+  - pose proof (zlen_nonneg r). rewrite zlen_cons.
+    assert (E : (zlen pre + (1 + zlen r) <=? zlen pre) = false) by lia. rewrite E.
+    rewrite znth_app0. change (znth (ch :: r) 0) with (Some ch). cbv beta iota.
+    assert (Hpre : zlen pre + 1 = zlen (pre ++ [ch])) by (rewrite zlen_app; reflexivity).
+    assert (Hv : pre ++ ch :: r = (pre ++ [ch]) ++ r) by (rewrite <- app_assoc; reflexivity).
+    destruct (N.eqb ch 92).
+    + rewrite Hpre, Hv. destruct r as [|e r'].
+      * rewrite app_nil_r. rewrite decode_escape_end. reflexivity.
+      * rewrite decode_escape_app, de_list_shift.
+        destruct (de_list e r' 0) as [cp k| |] eqn:Ed; cbn [shift]; try reflexivity.
+        pose proof (de_list_consumed _ _ _ _ Ed) as Hk.
+        assert (Hlen : (Z.to_nat k <= length r')%nat) by (unfold zlen in Hk; lia).
+        assert (Hsplit : (pre ++ [ch]) ++ e :: r' = ((pre ++ [ch]) ++ e :: firstn (Z.to_nat k) r') ++ skipn (Z.to_nat k) r').
+        { rewrite <- (firstn_skipn (Z.to_nat k) r') at 1. rewrite <- !app_assoc. reflexivity. }
+        assert (Hidx : zlen (pre ++ [ch]) + k + 1 = zlen ((pre ++ [ch]) ++ e :: firstn (Z.to_nat k) r')).
+        { rewrite (zlen_app (pre ++ [ch])), zlen_cons, skipn_zlen by exact Hlen. lia. }
+        rewrite Hsplit, Hidx. apply IH.
+    + destruct (ch <=? 31)%N; [reflexivity|]. rewrite Hpre, Hv. apply IH.
+Qed.
+
+Corollary unescape_loop_whole fuel v : unescape_loop fuel v 0 [] = ul fuel v [].
+Proof. exact (unescape_loop_list fuel [] v []). Qed.
+
+(* Part 3: the list recursion decodes exactly as the RFC says. *)
+Fixpoint lex_ok (q : N) (s : str) : bool :=       (* what the lexer's string states let through *)
+  match s with
+  | [] => true
+  | c :: r =>
+      if N.eqb c 92 then
+        match r with
+        | d :: r' => (existsb (N.eqb d) [98; 102; 110; 114; 116; 117; 47; 92]%N || N.eqb d q) && lex_ok q r'
+        | [] => false
+        end
+      else negb (N.eqb c q) && lex_ok q r
+  end.
+Definition is_scalar (c : N) : bool := (negb ((55296 <=? c) && (c <=? 57343)) && (c <=? 1114111))%N.
+
+Lemma hex_val_hexv c : hex_val c = hexv c.
+Proof.
+  unfold hex_val, hexv. destruct ((48 <=? c) && (c <=? 57))%N; [reflexivity|].
+  destruct ((65 <=? c) && (c <=? 70))%N; [f_equal; lia|]. destruct ((97 <=? c) && (c <=? 102))%N; [f_equal; lia | reflexivity].
+Qed.
+Lemma hex4l_hex4 a b c d r : hex4l (a :: b :: c :: d :: r) = hex4 a b c d.
+Proof.
+  unfold hex4l, hex4. rewrite !hex_val_hexv. destruct (hexv a), (hexv b), (hexv c), (hexv d); try reflexivity. f_equal. lia.
+Qed.
+Lemma is_low_eq x : is_low_surrogate x = is_low x. Proof. reflexivity. Qed.
+Lemma is_high_eq x : is_high_surrogate x = is_high x. Proof. reflexivity. Qed.
+
+(* the shape the RFC decoder inspects after "\u" *)
+Definition dhc_spec (r' : str) : dres :=
+  match r' with
+  | h1 :: h2 :: h3 :: h4 :: r2 =>
+    match hex4 h1 h2 h3 h4 with
+    | None => DSyntax
+    | Some x =>
+      if is_low x then DSyntax
+      else if is_high x then
+        match r2 with
+        | b :: u :: l1 :: l2 :: l3 :: l4 :: r3 =>
+          if N.eqb b 92 && N.eqb u 117 then
+            match hex4 l1 l2 l3 l4 with
+            | Some y => if is_low y then DOk (65536 + (x - 55296) * 1024 + (y - 56320)) 10 else DSyntax
+            | None => DSyntax
+            end
+          else DSyntax
+        | _ => DSyntax
+        end
+      else DOk x 4
+    end
+  | _ => DSyntax
+  end.
+
+Lemma dhc_is_spec r' : dhc r' 0 = dhc_spec r'.
+Proof.
+  unfold dhc, dhc_spec.
+  destruct r' as [|h1 [|h2 [|h3 [|h4 r2]]]]; try reflexivity.
+  assert (E3 : (zlen (h1 :: h2 :: h3 :: h4 :: r2) <=? 3) = false) by (unfold zlen; cbn [length]; lia). rewrite E3.
+  rewrite hex4l_hex4. destruct (hex4 h1 h2 h3 h4) as [x|]; [|reflexivity].
+  rewrite is_low_eq, is_high_eq. destruct (is_low x); [reflexivity|]. destruct (is_high x) eqn:Eh; [|reflexivity].
+  destruct r2 as [|b [|u [|l1 [|l2 [|l3 [|l4 r3]]]]]];
+    try (match goal with |- context [9 <? zlen ?l] => assert (E9 : (9 <? zlen l) = false) by (unfold zlen; cbn [length]; lia); rewrite E9 end; reflexivity).
+  assert (E9 : (9 <? zlen (h1 :: h2 :: h3 :: h4 :: b :: u :: l1 :: l2 :: l3 :: l4 :: r3)) = true) by (unfold zlen; cbn [length]; lia).
+  rewrite E9. cbn [andb].
+  change (znth (h1 :: h2 :: h3 :: h4 :: b :: u :: l1 :: l2 :: l3 :: l4 :: r3) 4) with (Some b).
+  change (znth (h1 :: h2 :: h3 :: h4 :: b :: u :: l1 :: l2 :: l3 :: l4 :: r3) 5) with (Some u).
+  cbn [ceq_z]. destruct (N.eqb b 92 && N.eqb u 117); [|reflexivity].
+  change (skipn 6 (h1 :: h2 :: h3 :: h4 :: b :: u :: l1 :: l2 :: l3 :: l4 :: r3)) with (l1 :: l2 :: l3 :: l4 :: r3).
+  rewrite hex4l_hex4. destruct (hex4 l1 l2 l3 l4) as [y|]; [|reflexivity].
+  rewrite is_low_eq. destruct (is_low y) eqn:El; [|reflexivity].
+  rewrite (surrogate_arith x y Eh El). reflexivity.
+Qed.
+
+Definition out_of (acc : list N) (o : option str) : option (option str) :=
+  match o with Some t => Some (Some (rev acc ++ t)) | None => Some None end.
+
+Lemma out_of_cons acc c o : out_of (c :: acc) o = out_of acc (match o with Some t => Some (c :: t) | None => None end).
+Proof. destruct o; cbn [out_of rev]; [rewrite <- app_assoc|]; reflexivity. Qed.
+
+Lemma skipn_length_le {A} k (l : list A) : (length (skipn k l) <= length l)%nat.
+Proof. rewrite skipn_length. lia. Qed.
+
+Lemma hex4_range a b c d x : hex4 a b c d = Some x -> 0 <= x < 65536.
+Proof.
+  unfold hex4, hexv. intros H.
+  repeat match type of H with context [if ?t then _ else _] => destruct t eqn:? end; inversion H; lia.
+Qed.
+
+Lemma hexv_not_bs c v : hexv c = Some v -> N.eqb c 92 = false.
+Proof.
+  unfold hexv. intros H. apply N.eqb_neq. intros ->. cbn in H. discriminate.
+Qed.
+Lemma lex_ok_drop1 q c l : N.eqb c 92 = false -> lex_ok q (c :: l) = true -> lex_ok q l = true.
+Proof. intros E H. cbn [lex_ok] in H. rewrite E in H. apply andb_true_iff in H as [_ H]. exact H. Qed.
+Lemma lex_ok_drop4 q a b c d l x : hex4 a b c d = Some x -> lex_ok q (a :: b :: c :: d :: l) = true -> lex_ok q l = true.
+Proof.
+  unfold hex4. destruct (hexv a) eqn:Ea, (hexv b) eqn:Eb, (hexv c) eqn:Ec, (hexv d) eqn:Ed; try discriminate. intros _ H.
+  apply (lex_ok_drop1 q d); [eapply hexv_not_bs; exact Ed|]. apply (lex_ok_drop1 q c); [eapply hexv_not_bs; exact Ec|].
+  apply (lex_ok_drop1 q b); [eapply hexv_not_bs; exact Eb|]. apply (lex_ok_drop1 q a); [eapply hexv_not_bs; exact Ea|]. exact H.
+Qed.
+Lemma lex_ok_drop_bu q l : lex_ok q (92%N :: 117%N :: l) = true -> lex_ok q l = true.
+Proof. cbn [lex_ok N.eqb]. intros H. apply andb_true_iff in H as [_ H]. exact H. Qed.
+Lemma scal_drop (c : N) l : forallb is_scalar (c :: l) = true -> forallb is_scalar l = true.
+Proof. cbn [forallb]. intros H. apply andb_true_iff in H as [_ H]. exact H. Qed.
+
+(* double-quoted literals: the lexer passes the body through unchanged *)
+Theorem ul_dq : forall fuel s acc, (length s < fuel)%nat -> lex_ok 34 s = true -> forallb is_scalar s = true ->
+  ul fuel s acc = out_of acc (spec_decode 34 s).
+Proof.
+  induction fuel as [|f IH]; intros s acc Hf Hl Hs; [lia|]. cbn [ul].
+  destruct s as [|ch r]; [cbn [spec_decode out_of]; rewrite app_nil_r; reflexivity|].
+  cbn [lex_ok] in Hl. cbn [forallb] in Hs. apply andb_true_iff in Hs as [Hc Hs]. cbn [length] in Hf.
+  cbn [spec_decode]. destruct (N.eqb ch 92) eqn:E92.
+  - destruct r as [|e r']; [discriminate|]. apply andb_true_iff in Hl as [He Hl].
+    cbn [forallb] in Hs. apply andb_true_iff in Hs as [_ Hs]. cbn [length] in Hf.
+    assert (IHr : forall c, ul f r' (c :: acc) = out_of acc (match spec_decode 34 r' with Some t => Some (c :: t) | None => None end)).
+    { intros c. rewrite IH by (try assumption; lia). apply out_of_cons. }
+    unfold de_list.
+    destruct (N.eqb e 34) eqn:E34; [cbn [skipn Z.to_nat]; apply (IHr 34%N)|].
+    destruct (N.eqb e 98) eqn:E98; [apply N.eqb_eq in E98; subst e; cbn; apply (IHr 8%N)|].
+    destruct (N.eqb e 102) eqn:E102; [apply N.eqb_eq in E102; subst e; cbn; apply (IHr 12%N)|].
+    destruct (N.eqb e 110) eqn:E110; [apply N.eqb_eq in E110; subst e; cbn; apply (IHr 10%N)|].
+    destruct (N.eqb e 114) eqn:E114; [apply N.eqb_eq in E114; subst e; cbn; apply (IHr 13%N)|].
+    destruct (N.eqb e 116) eqn:E116; [apply N.eqb_eq in E116; subst e; cbn; apply (IHr 9%N)|].
+    destruct (N.eqb e 47) eqn:E47; [apply N.eqb_eq in E47; subst e; cbn; apply (IHr 47%N)|].
+    destruct (N.eqb e 92) eqn:Ee92; [apply N.eqb_eq in Ee92; subst e; cbn; apply (IHr 92%N)|].
+    destruct (N.eqb e 117) eqn:E117.
+    + (* \uXXXX *)
+      rewrite dhc_is_spec. unfold dhc_spec.
+      destruct r' as [|h1 [|h2 [|h3 [|h4 r2]]]]; try reflexivity.
+      destruct (hex4 h1 h2 h3 h4) as [x|] eqn:Ex; [|reflexivity].
+      destruct (is_low x); [reflexivity|]. destruct (is_high x).
+      * destruct r2 as [|b [|u [|l1 [|l2 [|l3 [|l4 r3]]]]]]; try reflexivity.
+        destruct (N.eqb b 92 && N.eqb u 117) eqn:Ebu; [|reflexivity].
+        destruct (hex4 l1 l2 l3 l4) as [y|] eqn:Ey; [|reflexivity]. destruct (is_low y); [|reflexivity].
+        change (skipn (Z.to_nat 10) (h1 :: h2 :: h3 :: h4 :: b :: u :: l1 :: l2 :: l3 :: l4 :: r3)) with r3.
+        apply andb_true_iff in Ebu as [Eb Eu]. apply N.eqb_eq in Eb, Eu. subst b u.
+        rewrite IH; [apply out_of_cons | cbn [length] in Hf; lia | | ].
+        -- eapply lex_ok_drop4; [exact Ey|]. apply lex_ok_drop_bu. eapply lex_ok_drop4; [exact Ex | exact Hl].
+        -- do 10 apply scal_drop in Hs. exact Hs.
+      * change (skipn (Z.to_nat 4) (h1 :: h2 :: h3 :: h4 :: r2)) with r2.
+        rewrite IH; [apply out_of_cons | cbn [length] in Hf; lia | | ].
+        -- eapply lex_ok_drop4; [exact Ex | exact Hl].
+        -- do 4 apply scal_drop in Hs. exact Hs.
+    + (* not an escape the lexer lets through *)
+      cbn [existsb] in He. rewrite E98, E102, E110, E114, E116, E117, E47, Ee92 in He. discriminate.
+  - apply andb_true_iff in Hl as [Hq Hl]. apply negb_true_iff in Hq.
+    unfold raw_ok. unfold is_scalar in Hc. rewrite E92, Hq. apply andb_true_iff in Hc as [Hc1 Hc2]. rewrite Hc1, Hc2.
+    cbn [negb andb]. rewrite !andb_true_r.
+    destruct (ch <=? 31)%N eqn:E31.
+    + assert (E32 : (32 <=? ch)%N = false) by lia. rewrite E32. reflexivity.
+    + assert (E32 : (32 <=? ch)%N = true) by lia. rewrite E32.
+      rewrite IH by (try assumption; lia). apply out_of_cons.
+Qed.
+
+Theorem decode_dq body idx : lex_ok 34 body = true -> forallb is_scalar body = true ->
+  decode_string_literal {| ty := T_DQ_STRING; tval := body; tidx := idx |}
+  = match spec_decode 34 body with Some s => Ok s | None => Err ESyntax (Some idx) end.
+Proof.
+  intros Hl Hs. unfold decode_string_literal. cbn [ty tval tidx].
+  change (ttype_eqb T_DQ_STRING T_SQ_STRING) with false. cbv iota.
+  rewrite unescape_loop_whole, ul_dq by (try assumption; lia).
+  destruct (spec_decode 34 body); reflexivity.
+Qed.
+
+(* --- single-quoted literals: the two str.replace passes ---------------------------------------- *)
+Definition T (s : str) : str := replace_esc_sq (replace_dq s).
+
+Lemma re_plain c X : N.eqb c 92 = false -> replace_esc_sq (c :: X) = c :: replace_esc_sq X.
+Proof. intros E. cbn [replace_esc_sq]. destruct X as [|d X']; [reflexivity|]. rewrite E. reflexivity. Qed.
+Lemma re_bs d X : replace_esc_sq (92%N :: d :: X) = if N.eqb d 39 then 39%N :: replace_esc_sq X else 92%N :: replace_esc_sq (d :: X).
+Proof. cbn [replace_esc_sq N.eqb andb]. destruct (N.eqb d 39); reflexivity. Qed.
+
+Lemma rd_cons c l : replace_dq (c :: l) = if N.eqb c 34 then 92%N :: 34%N :: replace_dq l else c :: replace_dq l.
+Proof. reflexivity. Qed.
+Lemma T_plain c l : N.eqb c 92 = false -> N.eqb c 34 = false -> T (c :: l) = c :: T l.
+Proof. intros E1 E2. unfold T. rewrite rd_cons, E2. apply re_plain. exact E1. Qed.
+Lemma T_dq l : T (34%N :: l) = 92%N :: 34%N :: T l.
+Proof.
+  unfold T. rewrite rd_cons. change (N.eqb 34 34) with true. cbv iota. rewrite re_bs.
+  change (N.eqb 34 39) with false. cbv iota. rewrite re_plain by reflexivity. reflexivity.
+Qed.
+Lemma T_bs_sq l : T (92%N :: 39%N :: l) = 39%N :: T l.
+Proof.
+  unfold T. rewrite !rd_cons. change (N.eqb 92 34) with false. change (N.eqb 39 34) with false. cbv iota.
+  rewrite re_bs. reflexivity.
+Qed.
+Lemma T_bs_other e l : N.eqb e 34 = false -> N.eqb e 39 = false -> N.eqb e 92 = false -> T (92%N :: e :: l) = 92%N :: e :: T l.
+Proof.
+  intros E1 E2 E3. unfold T. rewrite !rd_cons. change (N.eqb 92 34) with false. cbv iota. rewrite E1, re_bs, E2, re_plain by exact E3. reflexivity.
+Qed.
+Lemma T_hd_not_sq q l : lex_ok q l = true -> q = 39%N -> match T l with 39%N :: _ => match l with 92%N :: 39%N :: _ => True | _ => False end | _ => True end.
+Proof.
+  intros Hl ->. destruct l as [|c l]; [exact I|]. cbn [lex_ok] in Hl.
+  destruct (N.eqb c 92) eqn:E92.
+  - apply N.eqb_eq in E92. subst c. destruct l as [|d l']; [discriminate|].
+    destruct (N.eqb d 39) eqn:Ed; [apply N.eqb_eq in Ed; subst d; rewrite T_bs_sq; exact I|].
+    unfold T. rewrite !rd_cons. change (N.eqb 92 34) with false. cbv iota.
+    destruct (N.eqb d 34) eqn:Ed34.
+    + rewrite re_bs. change (N.eqb 92 39) with false. cbv iota. exact I.
+    + rewrite re_bs, Ed. exact I.
+  - apply andb_true_iff in Hl as [Hq _]. apply negb_true_iff in Hq.
+    destruct (N.eqb c 34) eqn:E34; [apply N.eqb_eq in E34; subst c; rewrite T_dq; exact I|].
+    rewrite T_plain by assumption. destruct c as [|p]; [exact I|]. apply N.eqb_neq in Hq.
+    destruct (N.eq_dec (N.pos p) 39) as [E|E]; [congruence|].
+    repeat (destruct p as [p|p|]; try exact I). congruence.
+Qed.
+Lemma T_bs_bs l : lex_ok 39 l = true -> T (92%N :: 92%N :: l) = 92%N :: 92%N :: T l.
+Proof.
+  intros Hl. unfold T. rewrite !rd_cons. change (N.eqb 92 34) with false. cbv iota. rewrite re_bs.
+  change (N.eqb 92 39) with false. cbv iota.
+  destruct (replace_dq l) as [|d Y] eqn:EY; [reflexivity|].
+  rewrite re_bs. destruct (N.eqb d 39) eqn:Ed; [|reflexivity].
+  (* d = 39 is the first character of replace_dq l, so l starts with a raw quote: excluded by lex_ok *)
+  apply N.eqb_eq in Ed. subst d. destruct l as [|c l']; [discriminate|]. rewrite rd_cons in EY.
+  destruct (N.eqb c 34) eqn:E34; [discriminate|]. inversion EY; subst c.
+  cbn [lex_ok] in Hl. change (N.eqb 39 92) with false in Hl. cbv iota in Hl. change (N.eqb 39 39) with true in Hl. discriminate.
+Qed.
+
+(* hexadecimal prefixes are untouched by the two replace passes *)
+Fixpoint hexs (n : nat) (l : str) : option (list Z) :=
+  match n with
+  | O => Some []
+  | S k => match l with
+           | [] => None
+           | a :: l' => match hexv a with
+                        | Some v => match hexs k l' with Some vs => Some (v :: vs) | None => None end
+                        | None => None
+                        end
+           end
+  end.
+Lemma hexv_plain a v : hexv a = Some v -> N.eqb a 92 = false /\ N.eqb a 34 = false /\ N.eqb a 39 = false.
+Proof. unfold hexv. intros H. repeat split; apply N.eqb_neq; intros ->; cbn in H; discriminate. Qed.
+Lemma T_head_nonhex a l : hexv a = None -> exists a' rest, T (a :: l) = a' :: rest /\ hexv a' = None.
+Proof.
+  intros H. destruct (N.eqb a 34) eqn:E34.
+  - apply N.eqb_eq in E34. subst a. rewrite T_dq. eexists. eexists. split; [reflexivity|]. reflexivity.
+  - destruct (N.eqb a 92) eqn:E92.
+    + apply N.eqb_eq in E92. subst a. unfold T. rewrite rd_cons. change (N.eqb 92 34) with false. cbv iota.
+      destruct (replace_dq l) as [|d Y]; [eexists; eexists; split; reflexivity|].
+      rewrite re_bs. destruct (N.eqb d 39); eexists; eexists; split; reflexivity.
+    + rewrite T_plain by assumption. eexists. eexists. split; [reflexivity | exact H].
+Qed.
+Lemma hexs_T : forall n l, hexs n (T l) = hexs n l.
+Proof.
+  induction n as [|k IH]; intros l; [reflexivity|]. destruct l as [|a l']; [reflexivity|]. cbn [hexs].
+  destruct (hexv a) as [v|] eqn:Ea.
+  - destruct (hexv_plain a v Ea) as [E1 [E2 _]]. rewrite T_plain by assumption. cbn [hexs]. rewrite Ea, IH. reflexivity.
+  - destruct (T_head_nonhex a l' Ea) as [a' [rest [-> Ha']]]. cbn [hexs]. rewrite Ha'. reflexivity.
+Qed.
+Lemma hex4l_hexs l : hex4l l = match hexs 4 l with Some [a; b; c; d] => Some (((a * 16 + b) * 16 + c) * 16 + d) | _ => None end.
+Proof.
+  destruct l as [|a [|b [|c [|d r]]]]; cbn [hex4l hexs]; rewrite ?hex_val_hexv;
+    repeat match goal with |- context [hexv ?x] => destruct (hexv x) end; reflexivity.
+Qed.
+Lemma hex4l_T l : hex4l (T l) = hex4l l.
+Proof. rewrite !hex4l_hexs, hexs_T. reflexivity. Qed.
+
+Lemma T_hex4 a b c d x l : hex4 a b c d = Some x -> T (a :: b :: c :: d :: l) = a :: b :: c :: d :: T l.
+Proof.
+  unfold hex4. destruct (hexv a) eqn:Ea, (hexv b) eqn:Eb, (hexv c) eqn:Ec, (hexv d) eqn:Ed; try discriminate. intros _.
+  destruct (hexv_plain _ _ Ea) as [A1 [A2 _]]. destruct (hexv_plain _ _ Eb) as [B1 [B2 _]].
+  destruct (hexv_plain _ _ Ec) as [C1 [C2 _]]. destruct (hexv_plain _ _ Ed) as [D1 [D2 _]].
+  rewrite !T_plain by assumption. reflexivity.
+Qed.
+
+(* what follows a high surrogate: "\u" and four more hexadecimal digits *)
+Definition lowpart (l : str) : option Z :=
+  match l with
+  | b :: u :: rest => if N.eqb b 92 && N.eqb u 117 then hex4l rest else None
+  | _ => None
+  end.
+Lemma lowpart_T l : lowpart (T l) = lowpart l.
+Proof.
+  destruct l as [|c l']; [reflexivity|].
+  destruct (N.eqb c 34) eqn:E34.
+  { apply N.eqb_eq in E34. subst c. rewrite T_dq. destruct l'; reflexivity. }
+  destruct (N.eqb c 92) eqn:E92.
+  2:{ rewrite T_plain by assumption. cbn [lowpart]. destruct (T l'), l'; cbn [lowpart]; rewrite ?E92; reflexivity. }
+  apply N.eqb_eq in E92. subst c. destruct l' as [|d l'']; [reflexivity|].
+  destruct (N.eqb d 39) eqn:E39.
+  { apply N.eqb_eq in E39. subst d. rewrite T_bs_sq. cbn [lowpart]. destruct (T l''); reflexivity. }
+  destruct (N.eqb d 34) eqn:Ed34.
+  { apply N.eqb_eq in Ed34. subst d. unfold T. rewrite !rd_cons. change (N.eqb 92 34) with false. change (N.eqb 34 34) with true. cbv iota.
+    rewrite re_bs. change (N.eqb 92 39) with false. cbv iota. rewrite re_bs. change (N.eqb 34 39) with false. cbv iota. reflexivity. }
+  destruct (N.eqb d 92) eqn:Ed92.
+  { apply N.eqb_eq in Ed92. subst d. unfold T. rewrite !rd_cons. change (N.eqb 92 34) with false. cbv iota.
+    rewrite re_bs. change (N.eqb 92 39) with false. cbv iota.
+    destruct (replace_dq l'') as [|e Y]; [reflexivity|]. rewrite re_bs. destruct (N.eqb e 39); reflexivity. }
+  rewrite T_bs_other by assumption. cbn [lowpart N.eqb andb]. destruct (N.eqb d 117); [apply hex4l_T | reflexivity].
+Qed.
+
+Arguments T : simpl never.
+Lemma dhc_spec_none l : hex4l l = None -> dhc_spec l = DSyntax.
+Proof.
+  destruct l as [|a [|b [|c [|d r]]]]; try reflexivity. rewrite hex4l_hex4. unfold dhc_spec. intros ->. reflexivity.
+Qed.
+Lemma dhc_spec_high h1 h2 h3 h4 l x : hex4 h1 h2 h3 h4 = Some x -> is_low x = false -> is_high x = true ->
+  dhc_spec (h1 :: h2 :: h3 :: h4 :: l)
+  = match lowpart l with
+    | Some y => if is_low y then DOk (65536 + (x - 55296) * 1024 + (y - 56320)) 10 else DSyntax
+    | None => DSyntax
+    end.
+Proof.
+  intros Ex El Eh. unfold dhc_spec. rewrite Ex, El, Eh.
+  destruct l as [|b [|u [|l1 [|l2 [|l3 [|l4 r3]]]]]]; cbn [lowpart]; try reflexivity;
+    try (destruct (N.eqb b 92 && N.eqb u 117); reflexivity).
+  rewrite hex4l_hex4. destruct (N.eqb b 92 && N.eqb u 117); [|reflexivity]. destruct (hex4 l1 l2 l3 l4); reflexivity.
+Qed.
+Lemma lowpart_some l y : lowpart l = Some y ->
+  exists l1 l2 l3 l4 r3, l = 92%N :: 117%N :: l1 :: l2 :: l3 :: l4 :: r3 /\ hex4 l1 l2 l3 l4 = Some y.
+Proof.
+  destruct l as [|b [|u rest]]; try discriminate. cbn [lowpart].
+  destruct (N.eqb b 92) eqn:Eb; [|discriminate]. destruct (N.eqb u 117) eqn:Eu; [|discriminate]. cbn [andb].
+  apply N.eqb_eq in Eb, Eu. subst. destruct rest as [|l1 [|l2 [|l3 [|l4 r3]]]]; try discriminate.
+  rewrite hex4l_hex4. intros H. do 5 eexists. split; [reflexivity | exact H].
+Qed.
+
+Theorem ul_sq : forall fuel s acc, (length (T s) < fuel)%nat -> lex_ok 39 s = true -> forallb is_scalar s = true ->
+  ul fuel (T s) acc = out_of acc (spec_decode 39 s).
+Proof.
+  induction fuel as [|f IH]; intros s acc Hf Hl Hs; [lia|].
+  destruct s as [|ch r].
+  { change (T []) with (@nil N). cbn [ul spec_decode out_of]. rewrite app_nil_r. reflexivity. }
+  cbn [lex_ok] in Hl. cbn [forallb] in Hs. apply andb_true_iff in Hs as [Hc Hs].
+  assert (IHr : forall l c, (length (T l) < f)%nat -> lex_ok 39 l = true -> forallb is_scalar l = true ->
+             ul f (T l) (c :: acc) = out_of acc (match spec_decode 39 l with Some t => Some (c :: t) | None => None end)).
+  { intros l c H1 H2 H3. rewrite IH by assumption. apply out_of_cons. }
+  cbn [spec_decode]. destruct (N.eqb ch 92) eqn:E92.
+  - apply N.eqb_eq in E92. subst ch.
+    destruct r as [|e r']; [discriminate|]. apply andb_true_iff in Hl as [He Hl].
+    cbn [forallb] in Hs. apply andb_true_iff in Hs as [_ Hs].
+    destruct (N.eqb e 39) eqn:E39.
+    { apply N.eqb_eq in E39. subst e. rewrite T_bs_sq in Hf |- *. cbn [length] in Hf. cbn [ul].
+      change (N.eqb 39 92) with false. change (39 <=? 31)%N with false. cbv iota. apply IHr; try assumption; lia. }
+    destruct (N.eqb e 92) eqn:Ee92.
+    { apply N.eqb_eq in Ee92. subst e. rewrite (T_bs_bs _ Hl) in Hf |- *. cbn [length] in Hf. cbn [ul].
+      change (N.eqb 92 92) with true. cbv iota. unfold de_list. change (N.eqb 92 34) with false. change (N.eqb 92 92) with true.
+      cbv iota. change (skipn (Z.to_nat 0) (T r')) with (T r'). apply IHr; try assumption; lia. }
+    destruct (N.eqb e 34) eqn:E34; [apply N.eqb_eq in E34; subst e; cbn in He; discriminate|].
+    rewrite (T_bs_other e r' E34 E39 Ee92) in Hf |- *. cbn [length] in Hf. cbn [ul].
+    change (N.eqb 92 92) with true. cbv iota. unfold de_list. rewrite E34, Ee92.
+    destruct (N.eqb e 98) eqn:E98; [apply N.eqb_eq in E98; subst e; cbn; apply IHr; try assumption; lia|].
+    destruct (N.eqb e 102) eqn:E102; [apply N.eqb_eq in E102; subst e; cbn; apply IHr; try assumption; lia|].
+    destruct (N.eqb e 110) eqn:E110; [apply N.eqb_eq in E110; subst e; cbn; apply IHr; try assumption; lia|].
+    destruct (N.eqb e 114) eqn:E114; [apply N.eqb_eq in E114; subst e; cbn; apply IHr; try assumption; lia|].
+    destruct (N.eqb e 116) eqn:E116; [apply N.eqb_eq in E116; subst e; cbn; apply IHr; try assumption; lia|].
+    destruct (N.eqb e 47) eqn:E47; [apply N.eqb_eq in E47; subst e; cbn; apply IHr; try assumption; lia|].
+    destruct (N.eqb e 117) eqn:E117.
+    2:{ cbn [existsb] in He. rewrite E98, E102, E110, E114, E116, E117, E47, Ee92 in He. cbn in He. discriminate. }
+    cbv iota. rewrite dhc_is_spec.
+    destruct (hex4l r') as [x|] eqn:Ex4.
+    2:{ rewrite dhc_spec_none by (rewrite hex4l_T; exact Ex4).
+        destruct r' as [|h1 [|h2 [|h3 [|h4 r2]]]]; try reflexivity. rewrite hex4l_hex4 in Ex4. rewrite Ex4. reflexivity. }
+    destruct r' as [|h1 [|h2 [|h3 [|h4 r2]]]]; try discriminate. rewrite hex4l_hex4 in Ex4.
+    rewrite (T_hex4 _ _ _ _ _ r2 Ex4) in Hf |- *. cbn [length] in Hf.
+    assert (Hl2 : lex_ok 39 r2 = true) by (eapply lex_ok_drop4; [exact Ex4 | exact Hl]).
+    assert (Hs2 : forallb is_scalar r2 = true) by (do 4 apply scal_drop in Hs; exact Hs).
+    destruct (is_low x) eqn:Elow.
+    { unfold dhc_spec. rewrite Ex4, Elow. reflexivity. }
+    destruct (is_high x) eqn:Ehigh.
+    2:{ unfold dhc_spec. rewrite Ex4, Elow, Ehigh.
+        change (skipn (Z.to_nat 4) (h1 :: h2 :: h3 :: h4 :: T r2)) with (T r2). apply IHr; try assumption; lia. }
+    rewrite (dhc_spec_high _ _ _ _ _ _ Ex4 Elow Ehigh), lowpart_T. rewrite Ex4, Elow, Ehigh.
+    destruct (lowpart r2) as [y|] eqn:Elp.
+    2:{ destruct r2 as [|b [|u [|l1 [|l2 [|l3 [|l4 r3]]]]]]; try reflexivity. cbn [lowpart] in Elp. rewrite hex4l_hex4 in Elp.
+        destruct (N.eqb b 92 && N.eqb u 117); [rewrite Elp|]; reflexivity. }
+    apply lowpart_some in Elp as (l1 & l2 & l3 & l4 & r3 & -> & Ey).
+    rewrite (T_bs_other 117 _ eq_refl eq_refl eq_refl), (T_hex4 _ _ _ _ _ r3 Ey) in Hf |- *. cbn [length] in Hf.
+    cbv beta iota. change (N.eqb 92 92 && N.eqb 117 117) with true. cbv iota. rewrite Ey.
+    destruct (is_low y); [|reflexivity].
+    change (skipn (Z.to_nat 10) (h1 :: h2 :: h3 :: h4 :: 92%N :: 117%N :: l1 :: l2 :: l3 :: l4 :: T r3)) with (T r3).
+    apply IHr; [lia | | ].
+    + eapply lex_ok_drop4; [exact Ey|]. apply lex_ok_drop_bu. exact Hl2.
+    + do 6 apply scal_drop in Hs2. exact Hs2.
+  - apply andb_true_iff in Hl as [Hq Hl]. apply negb_true_iff in Hq.
+    destruct (N.eqb ch 34) eqn:E34.
+    { apply N.eqb_eq in E34. subst ch. rewrite T_dq in Hf |- *. cbn [length] in Hf. cbn [ul].
+      change (N.eqb 92 92) with true. cbv iota. unfold de_list. change (N.eqb 34 34) with true. cbv iota.
+      change (skipn (Z.to_nat 0) (T r)) with (T r). change (raw_ok 39 34) with true. cbv iota.
+      apply IHr; try assumption; lia. }
+    rewrite (T_plain ch r E92 E34) in Hf |- *. cbn [length] in Hf. cbn [ul]. rewrite E92.
+    unfold raw_ok. unfold is_scalar in Hc. rewrite E92, Hq. apply andb_true_iff in Hc as [Hc1 Hc2]. rewrite Hc1, Hc2.
+    cbn [negb andb]. rewrite !andb_true_r.
+    destruct (ch <=? 31)%N eqn:E31.
+    + assert (E32 : (32 <=? ch)%N = false) by lia. rewrite E32. reflexivity.
+    + assert (E32 : (32 <=? ch)%N = true) by lia. rewrite E32. apply IHr; try assumption; lia.
+Qed.
+
+Theorem decode_sq body idx : lex_ok 39 body = true -> forallb is_scalar body = true ->
+  decode_string_literal {| ty := T_SQ_STRING; tval := body; tidx := idx |}
+  = match spec_decode 39 body with Some s => Ok s | None => Err ESyntax (Some idx) end.
+Proof.
+  intros Hl Hs. unfold decode_string_literal. cbn [ty tval tidx].
+  change (ttype_eqb T_SQ_STRING T_SQ_STRING) with true. cbv iota. fold (T body).
+  rewrite unescape_loop_whole, ul_sq by (try assumption; lia).
+  destruct (spec_decode 39 body); reflexivity.
+Qed.
